@@ -40,7 +40,7 @@ PID = "C14"
 FORMATS = ["json", "yaml", "xml", "bson", "pickle"]
 SCHEMA_ENVS = [None, True, "APP", False]
 FIELD_ENVS = [None, True, "MYVAR", False]
-KEYS = ["db", "srv"]            # keys of the nested schemas
+KEYS = ["db", "srv", "pool"]    # keys of the nested schemas
 FKEY = "fhost"                  # key of the field under test
 
 OB_NAME = "core:Field.__setkey__/post:C14.variable-name"
@@ -453,8 +453,14 @@ def rac(tier: str, seed: int) -> dict:
         bound="schemas built top-down to depth 3: all 4+16+64 schema-env combinations x 4 field-env settings (336) "
               "x states unset/empty/valid/invalid x classes {String(max_len), Int, Bool, Port, List, Challenge} (thorough: "
               "all classes) with load_tree, one rotating document format, assign, load_tree; all %d field classes x %d representative combinations x states x "
-              "load_tree + loads in json/yaml/xml/bson/pickle + assign + load_tree; 6 operation orders" %
-              (len(K), len(REP_COMBOS)),
+              "load_tree + loads in json/yaml/xml/bson/pickle + assign + load_tree; 6 operation orders; "
+              "construction routes: root env none/True/'APP'/'app' x 1-3 nested schemas each env none/True/'X'/False "
+              "x field env none/True/'NAME'/False (1344 logical schemas) x %d routes (attribute chain, explicit "
+              "Schema objects, item paths with implicit creation, item read + attribute, mixed, stand-alone sub-"
+              "schema attached later, bottom-up, make_type): names compared with the attribute-chain route and the "
+              "documented rule, then build/load/assign with the variable set; stand-alone/make_type routes are "
+              "asserted only where nothing is inherited across the attachment (else counted as trivial)" %
+              (len(K), len(REP_COMBOS), len(ROUTES)),
         tier=tier, seed=seed)
     with sandbox():
         n = 0
@@ -487,10 +493,286 @@ def rac(tier: str, seed: int) -> dict:
                     for ops in orders:
                         _emit(rec, {"levels": levels, "fenv": fenv, "kind": kind, "state": state, "ops": ops}, n)
                         n += 1
+        # D: the same logical schema along every construction route
+        for case in route_cases():
+            if not quick and rec.out_of_time():
+                break
+            _emit_route(rec, case, n)
+            n += 1
     return rec.result(exhaustive=False)
 
 
+# ------------------------------------------------------------------- D: how the schema was built must not matter
+
+OB_PREFIX = "core:Schema.__setkey__/post:C14.nested-prefix"
+ROOT_ENVS = [None, True, "APP", "app"]
+NESTED_ENVS = [None, True, "X", False]
+ROUTE_FIELD_ENVS = [None, True, "NAME", False]
+ROUTES = ["attr",                   # schema.db.srv.fhost = F(); explicit levels: schema.db = Schema(env=..) first
+          "explicit-attr",          # every level an explicit Schema(...) assigned to an attribute, top-down
+          "item-set",               # schema['db.srv.fhost'] = F() with implicit creation; explicit levels by item path
+          "item-get-attr",          # schema['db.srv'].fhost = F()
+          "explicit-item",          # every level an explicit Schema(...) assigned to an item path, top-down
+          "mixed",                  # level 1 by attribute, deeper levels by item path relative to it, field by attr
+          "standalone-level1",      # level-1 schema built stand-alone (top-down inside), attached to the root last
+          "standalone-bottom-up",   # innermost schema first, every schema attached to its parent afterwards
+          "make_type-level1"]       # level 1 is a config type (make_type of the stand-alone level-1 schema)
+_ROUTE_T = [0]
+
+
+def _mk(env):
+    import cincoconfig as cc
+    return cc.Schema() if env is None else cc.Schema(env=env)
+
+
+def build_route(route, levels, fenv, make):
+    """build the logical schema (levels[0] = root env, levels[1:] = env of the nested schemas db/srv/pool, one field
+    `fhost` with env=fenv at the innermost level) along one construction route -> (root, field, [nested schemas])"""
+    import cincoconfig as cc
+    from cincoconfig.core import ConfigTypeField
+    root = _mk(levels[0])
+    envs = list(levels[1:])
+    n = len(envs)
+    keys = KEYS[:n]
+    field = make(fenv)
+
+    def chain(top, ks, es):            # the documented way below `top`
+        cur = top
+        for k, e in zip(ks, es):
+            if e is None:
+                cur = getattr(cur, k)
+            else:
+                sub = cc.Schema(env=e)
+                setattr(cur, k, sub)
+                cur = sub
+        return cur
+
+    if route == "attr":
+        setattr(chain(root, keys, envs), FKEY, field)
+    elif route == "explicit-attr":
+        cur = root
+        for k, e in zip(keys, envs):
+            sub = _mk(e)
+            setattr(cur, k, sub)
+            cur = sub
+        setattr(cur, FKEY, field)
+    elif route in ("item-set", "item-get-attr", "explicit-item"):
+        for i, e in enumerate(envs):
+            if e is not None or route == "explicit-item":
+                root[".".join(keys[: i + 1])] = _mk(e)
+        if route == "item-get-attr":
+            setattr(root[".".join(keys)], FKEY, field)
+        else:
+            root[".".join(keys + [FKEY])] = field
+    elif route == "mixed":
+        l1 = chain(root, keys[:1], envs[:1])
+        for i in range(1, n):
+            if envs[i] is not None:
+                l1[".".join(keys[1: i + 1])] = cc.Schema(env=envs[i])
+        target = l1[".".join(keys[1:])] if n > 1 else l1
+        setattr(target, FKEY, field)
+    elif route in ("standalone-level1", "make_type-level1"):
+        l1 = _mk(envs[0])
+        setattr(chain(l1, keys[1:], envs[1:]), FKEY, field)
+        if route == "make_type-level1":
+            _ROUTE_T[0] += 1
+            setattr(root, keys[0], cc.make_type(l1, "RouteT%d" % _ROUTE_T[0]))
+        else:
+            setattr(root, keys[0], l1)
+    elif route == "standalone-bottom-up":
+        subs = [_mk(e) for e in envs]
+        setattr(subs[-1], FKEY, field)
+        for i in range(n - 1, 0, -1):
+            setattr(subs[i - 1], keys[i], subs[i])
+        setattr(root, keys[0], subs[0])
+    else:
+        raise KeyError(route)
+    nested, cur = [], root
+    for k in keys:
+        f = cur._fields[k]
+        cur = f.config_type.__schema__ if isinstance(f, ConfigTypeField) else f
+        nested.append(cur)
+    assert nested[-1]._fields[FKEY] is field
+    nested[-1].other = cc.IntField(default=3, env=False)       # what doc_tree() also mentions
+    return root, field, nested
+
+
+def _norm(x):
+    return x if isinstance(x, str) and x else None
+
+
+def ref_prefixes(levels):
+    """documented effective prefix of every schema on the path (root first); None = no prefix"""
+    out, prefix = [], None
+    for i, e in enumerate(levels):
+        if e is False:
+            prefix = None
+        elif e is True:
+            prefix = ""
+        elif isinstance(e, str):
+            prefix = e
+        elif i == 0:
+            prefix = None
+        elif prefix is not None:
+            key = KEYS[i - 1].upper()
+            prefix = prefix + "_" + key if prefix else key
+        out.append(prefix)
+    return out
+
+
+def route_in_scope(route, levels):
+    """the property is about schemas built top-down.  A route that attaches a stand-alone built schema later is
+    only comparable where nothing has to be inherited across the attachment: the attached schema has its own env
+    setting, or its parent has no prefix to pass on"""
+    if route == "standalone-bottom-up":
+        bounds = range(1, len(levels))
+    elif route in ("standalone-level1", "make_type-level1"):
+        bounds = [1]
+    else:
+        return True
+    eff = ref_prefixes(levels)
+    return all(levels[k] is not None or eff[k - 1] is None for k in bounds)
+
+
+def _route_candidates(n):
+    key = FKEY.upper()
+    path = [k.upper() for k in KEYS[:n]]
+    names = {"NAME", key}
+    for start in range(n + 1):
+        for end in range(start, n + 1):
+            tail = "_".join(path[start:end] + [key])
+            for pre in ("", "APP_", "app_", "X_", "APP_X_", "X_X_"):
+                names.add(pre + tail)
+    return sorted(names)
+
+
+def _prefix_kind(e):
+    return {None: "none", True: "auto", "APP": "named-upper", "app": "named-lower"}[e]
+
+
+def route_case(case):
+    """one logical schema along one route -> (findings, info).  Clauses: the field's variable and the nested
+    prefixes equal those of the attribute-chain route and the documented rule; with the variable set the value is
+    the validated variable, loads leave it, assignment replaces it; without a variable: default, loads work"""
+    from cincoconfig.core import ValidationError
+    K = _kinds()
+    route, levels, fenv = case["route"], case["levels"], case["fenv"]
+    spec = K["Int"]
+    depth = len(levels)
+    wkey = "schema-construction-route:%s/%s" % (route, _prefix_kind(levels[0]))
+    findings = []
+    root, field, nested = build_route(route, levels, fenv, spec["make"])
+    _, dfield, dnested = build_route("attr", levels, fenv, spec["make"])
+    got = (_norm(field.env), [_norm(s._env_prefix) for s in nested])
+    doc = (_norm(dfield.env), [_norm(s._env_prefix) for s in dnested])
+    rule = (ref_name(levels, fenv), [_norm(p) if p else None for p in ref_prefixes(levels)[1:]])
+    info = {"in_scope": route_in_scope(route, levels), "agrees": got == doc, "got": got, "attr_route": doc,
+            "rule": rule}
+    if not info["in_scope"]:
+        return findings, info
+    path = ".".join(KEYS[: depth - 1] + [FKEY])
+    if got[0] != doc[0] or got[0] != rule[0]:
+        findings.append({"ob": OB_NAME, "wkey": wkey,
+                         "what": "route %s: %s is bound to %r; attribute-chain route: %r; documented rule: %r "
+                                 "(schema envs %r, field env %r)" % (route, path, got[0], doc[0], rule[0], levels, fenv)})
+    if got[1] != doc[1] or got[1] != rule[1]:
+        findings.append({"ob": OB_PREFIX, "wkey": wkey,
+                         "what": "route %s: prefixes of the nested schemas %r; attribute-chain route: %r; documented "
+                                 "rule: %r (schema envs %r)" % (route, got[1], doc[1], rule[1], levels)})
+    if findings:
+        return findings, info
+    # behaviour with the process environment set
+    name = rule[0]
+    env = {c: "abc" for c in _route_candidates(depth - 1)}
+    if name is not None:
+        env[name] = "42"
+    with environ(**env):
+        try:
+            cfg = root()
+        except ValidationError as exc:
+            findings.append({"ob": OB_VALUE if name else OB_NOBIND_BUILD, "wkey": wkey,
+                             "what": "route %s: construction raised %s although %s (every other plausible name "
+                                     "holds 'abc')" % (route, exc, "%s='42'" % name if name else "no variable is "
+                                                                                                 "expected")})
+            return findings, info
+        expected = 42 if name else 5
+        obs = get_value(cfg, depth)
+        if not strict_eq(obs, expected):
+            findings.append({"ob": OB_VALUE if name else OB_NOBIND_BUILD, "wkey": wkey,
+                             "what": "route %s: %s after construction: expected %r observed %r (variable %r)"
+                                     % (route, path, expected, obs, name)})
+            return findings, info
+        for i, op in enumerate(("load_tree", "loads:json")):
+            exc = apply_op(cfg, depth, op, i, spec)
+            obs = get_value(cfg, depth)
+            expected = 42 if name else 100 + i
+            if exc is not None or not strict_eq(obs, expected):
+                findings.append({"ob": OB_DOC if name else OB_NOBIND_LOAD, "wkey": wkey,
+                                 "what": "route %s: %s after %s: expected %r observed %r%s (variable %r)"
+                                         % (route, path, op, expected, obs, " (raised %s)" % exc if exc else "", name)})
+                return findings, info
+        exc = apply_op(cfg, depth, "assign", 0, spec)
+        obs = get_value(cfg, depth)
+        if exc is not None or not strict_eq(obs, 9):
+            findings.append({"ob": OB_ASSIGN, "wkey": wkey,
+                             "what": "route %s: assigning 9 to %s: observed %r%s" % (route, path, obs,
+                                                                                    " (raised %s)" % exc if exc else "")})
+    return findings, info
+
+
+def route_cases():
+    for n in (1, 2, 3):
+        combos = [[]]
+        for _ in range(n):
+            combos = [c + [e] for c in combos for e in NESTED_ENVS]
+        for e0 in ROOT_ENVS:
+            for nested in combos:
+                for fenv in ROUTE_FIELD_ENVS:
+                    for route in ROUTES:
+                        yield {"route": route, "levels": [e0] + nested, "fenv": fenv}
+
+
+def route_survey():
+    """how often each route agrees with the attribute-chain route, inside and outside the asserted scope"""
+    out = {}
+    with sandbox():
+        for case in route_cases():
+            _, info = route_case(case)
+            r = out.setdefault(case["route"], {"in_scope": 0, "in_scope_disagree": 0, "out_of_scope": 0,
+                                               "out_of_scope_disagree": 0, "example": None})
+            k = "in_scope" if info["in_scope"] else "out_of_scope"
+            r[k] += 1
+            if not info["agrees"]:
+                r[k + "_disagree"] += 1
+                if r["example"] is None:
+                    r["example"] = {"levels": case["levels"], "fenv": case["fenv"], "route": info["got"],
+                                    "attr_route": info["attr_route"]}
+    return out
+
+
+def _emit_route(rec, case, n):
+    findings, info = route_case(case)
+    rec.case(key=("route", case["route"], tuple(case["levels"]), case["fenv"]), nontrivial=info["in_scope"],
+             sample=dict(case, expected_variable=info["rule"][0]) if n % 2003 == 0 else None)
+    for fd in findings:
+        rec.violation(obligation=fd["ob"], what=fd["what"], witness_key=fd["wkey"],
+                      replay=dict(case, obligation=fd["ob"], witness_key=fd["wkey"]))
+
+
 def replay(case: dict) -> dict:
+    if "route" in case:
+        with sandbox():
+            findings, info = route_case(case)
+        mine = [f for f in findings if case.get("obligation") in (None, f["ob"])
+                and case.get("witness_key") in (None, f["wkey"])]
+        return {"fails": bool(mine),
+                "expected": "route %s gives the names of the attribute-chain route and of the documented rule %r, and "
+                            "the behaviour that goes with them" % (case["route"], info["rule"]),
+                "observed": [f["what"] for f in mine][:3] or "clause holds"}
+    return _replay_env(case)
+
+
+def _replay_env(case: dict) -> dict:
     with sandbox():
         findings, info = run_case(case)
     mine = [f for f in findings if case.get("obligation") in (None, f["ob"])
